@@ -9,7 +9,7 @@ LEAN_MODULES = ['Glom.Props.C12']
 FACT_FILES = ['TFacts', 'ExcFacts', 'RegFacts', 'MutFacts', 'c11']
 READY = True
 MANIFEST = dict(
-    text="Lean 4 theorems about an executable model of Delete.__init__/glomit/_del_one (driven by the branch table and caught exception classes EXTRACTED from _del_one's AST), _apply_for_each and the `delete` registry op on a heap with object identity: for every heap, target, wildcard-free path of any length in every addressing style and ignore_missing in {False, True} the model's outcome is Python's `del` on the addressed key / index / attribute (same object returned, later list items shift, every other cell untouched), a missing final element is a PathDeleteError and a missing parent a PathAccessError with the heap unchanged, both silently ignored under ignore_missing, any other deletion fault leaves the heap unchanged; wildcard paths delete at every match in order; the path a Delete keeps is the path as it is read (S.a / Path(S,'a') name the scope variable a) [c12_facts_s_first, c12_refines_spec]. `c12_missing_final` hinges on a facts obligation (`[` catches KeyError and IndexError, `.` AttributeError, plain segments Exception) discharged by `decide` on the tables regenerated from /repo; model tied to the code by differential execution (full heap snapshot, exception class chain).",
+    text="Lean 4 theorems about an executable model of Delete.__init__/glomit/_del_one (driven by the branch table and caught exception classes EXTRACTED from _del_one's AST), _apply_for_each and the `delete` registry op on a heap with object identity: for every heap, target, wildcard-free path of any length in every addressing style and ignore_missing in {False, True} the model's outcome is Python's `del` on the addressed key / index / attribute (same object returned, later list items shift, every other cell untouched), a missing final element is a PathDeleteError and a missing parent a PathAccessError with the heap unchanged, both silently ignored under ignore_missing, any other deletion fault leaves the heap unchanged; wildcard paths delete at every match in order — an entry that occurs twice among the matches is processed twice (facts: one evaluation of the rest of the path per entry) —; delete after assign through the same path is the delete of the original element where there was one and restores the original heap exactly where the assignment created it [c12_delete_after_assign_partial]; the `delete` handler table is a parameter [c12_facts_wf_ureg]; the path a Delete keeps is the path as it is read (S.a / Path(S,'a') name the scope variable a) [c12_facts_s_first, c12_refines_spec]. `c12_missing_final` hinges on a facts obligation (`[` catches KeyError and IndexError, `.` AttributeError, plain segments Exception) discharged by `decide` on the tables regenerated from /repo; model tied to the code by differential execution (full heap snapshot, exception class chain).",
     note="trusted: Lean kernel + {propext, Classical.choice, Quot.sound}; extractor (extract/facts/c11.py); harness/driver; CPython's delitem/delattr on dict/list/tuple/set/plain instances and the fault classes of harness/props/mutobjs.py as modelled in Glom/Model/C11.lean (validated by the correspondence only); default registry (C13 covers registration); `**` paths outside the model.",
     technique='Lean 4 refinement proof (Delete model = plain del on a heap, frame lemma) + facts obligation by decide over the extracted except-clauses + differential correspondence',
     ref='DESIGN.md §3 C12')
@@ -20,7 +20,9 @@ RULE = ('type-directed: targets as for C11 (dict/OrderedDict/dict subclass/list/
         'earlier (missing parent); spelled as dotted text, Path(...), T[..]/T.attr, mixtures, S-rooted (first step as '
         'S[name], S.name or Path(S, name): the scope variable), with 0-2 `*` wildcards; ignore_missing in {False, True}; keys / attributes also named like op characters '
         'and wildcards (x, X, P, *, **); 12% of the cases apply the SAME Delete object first to 1-2 other '
-        'targets (histories); a one-edit mutation stream plants a bad segment '
+        'targets (histories); 8% register 1-3 user classes on a private Glommer with explicit get / assign / delete handlers (every handler '
+        'kind, False, a raising handler); 6% are regular nested targets under one `*` per level, two thirds of them with the SAME leaf / '
+        'sub-container matched more than once; a one-edit mutation stream plants a bad segment '
         '/ wrong access kind at every position. non-trivial = path length >= 2 or anything but a plain '
         'success; distinct = distinct (heap, target, scope, root, spelling, ignore_missing)')
 TRUSTED = ['deletion primitives of CPython and the fault classes of harness/props/mutobjs.py as modelled in '
@@ -30,20 +32,31 @@ ASSUMPTIONS = ['default registry (no user registrations): C13 covers registratio
                '`**` paths are skipped (enumeration order of `**` is C14)']
 
 
+# User types: classes registered on a private Glommer with explicit get / assign / delete handlers
+# (every handler kind, False, a raising handler of the user's own).  False: not generated.
+USER_REGISTRATIONS = True
+
+
 def one_case(rng, tier, classes, cflags, force=None):
     force = force or {}
-    if rng.random() < force.get('deep_star_p', 0.04):
-        heap, root, steps = M.gen_star_case(rng, present=rng.random() < 0.8)
+    if rng.random() < force.get('deep_star_p', 0.06):
+        # (two thirds of them with the SAME leaf / sub-container among the matches more than once:
+        # `delete([row, row], '*.0')` deletes two items of `row`)
+        heap, root, steps = M.gen_star_case(rng, present=rng.random() < 0.8,
+                                            share_p=rng.choice([0, 0.35, 0.6]))
         style = M.choose_style(rng, steps, False)
         return {'classes': classes, 'cflags': [f for f in cflags if f[0] != 'Scope'], 'heap': heap,
                 'target': root, 'scope': None, 'root': 'T', 'spelling': M.spell(rng, steps, style),
                 'style': style, 'ignore_missing': rng.random() < 0.4, 'api': rng.choice(['delete', 'Delete'])}
     maxlen = 5 if tier == 'quick' else 8
     heap, root = M.gen_target(rng, rng.choice([2, 3, 4]))
-    sroot = force.get('sroot', rng.random() < 0.1)
+    # user registrations on a private Glommer (T-rooted, no wildcards: `*` enumerates through the
+    # registered `keys` / `get` / `iterate` handlers, which is C14's subject)
+    ureg = M.gen_ureg(rng) if USER_REGISTRATIONS and rng.random() < force.get('ureg_p', 0.08) else None
+    sroot = force.get('sroot', rng.random() < 0.1) and not ureg
     scope = None
     start = root
-    if sroot or rng.random() < 0.05:
+    if sroot or (rng.random() < 0.05 and not ureg):
         scope = M.make_scope(rng, heap, root)
     if sroot:
         start = scope
@@ -52,7 +65,7 @@ def one_case(rng, tier, classes, cflags, force=None):
     if mode < 0.15:
         absent = rng.choice([1, 1, 2])            # missing parent
     steps = M.gen_dest(rng, heap, start, maxlen, want_present=rng.random() < force.get('present_p', 0.65),
-                       absent_tail=absent, star_p=force.get('star_p', 0.15))
+                       absent_tail=absent, star_p=0 if ureg else force.get('star_p', 0.15))
     if sroot and steps and steps[0][0] != 'key':
         steps[0] = ('key', {'s': 'd'})
     if rng.random() < force.get('mut_p', 0.2):
@@ -68,8 +81,9 @@ def one_case(rng, tier, classes, cflags, force=None):
     return {'classes': classes, 'cflags': cflags, 'heap': heap, 'target': root, 'scope': scope,
             'root': 'S' if sroot else 'T', 'spelling': sp, 'style': style,
             'ignore_missing': force.get('ignore', rng.random() < 0.4),
-            'warmup': rng.choice([1, 2]) if rng.random() < force.get('warm_p', 0.12) else 0,
-            'api': rng.choice(['delete', 'Delete'])}
+            'warmup': rng.choice([1, 2]) if rng.random() < force.get('warm_p', 0.12) and not ureg else 0,
+            'api': rng.choice(['delete', 'Delete']), 'ureg': M.ureg_tables(ureg) if ureg else None,
+            'ureg_src': ureg}
 
 
 def generate(rng, tier, scale, **focus):
@@ -123,14 +137,15 @@ def run_impl(case):
     out = dict(case)
     default_map = glom.core._DEFAULT_SCOPE.maps[0]
     default_keys = set(default_map)
+    G = M.Runner(case.get('ureg_src'))
     try:
         path = M.build_path(case, dv)
-        if case.get('api') == 'delete' and not kwargs and not case.get('warmup'):
+        if case.get('api') == 'delete' and not kwargs and not case.get('warmup') and not G.ureg:
             res = glom.delete(target, path, ignore_missing=case['ignore_missing'])
         else:
             spec = Delete(path, ignore_missing=case['ignore_missing'])
             M.warm_up(case, spec)            # the same spec object, used on other targets before
-            res = glom.glom(target, spec, **kwargs)
+            res = G.glom(target, spec, **kwargs)
     except Exception as e:
         r = M.observe_exc(e)
     else:
@@ -143,7 +158,7 @@ def run_impl(case):
 
 
 def key(case):
-    return {k: case.get(k) for k in ('heap', 'target', 'scope', 'root', 'spelling', 'style', 'ignore_missing', 'warmup')}
+    return {k: case.get(k) for k in ('heap', 'target', 'scope', 'root', 'spelling', 'style', 'ignore_missing', 'warmup', 'ureg_src')}
 
 
 def nontrivial(case, verdict):
@@ -158,6 +173,12 @@ def shrink(case):
     if case.get('scope') is not None and case.get('root') != 'S':
         c = dict(base); c['scope'] = None
         yield c
+    ur = case.get('ureg_src')
+    if ur:
+        for i in range(len(ur)):
+            u2 = ur[:i] + ur[i + 1:]
+            c = dict(base); c['ureg_src'] = u2 or None; c['ureg'] = M.ureg_tables(u2) if u2 else None
+            yield c
 
 
 def focus(disagreements, facts_changed):
